@@ -268,6 +268,10 @@ pub fn mutations(w: &schema::Biscuit, other: &schema::Biscuit, earlier: Option<&
         let mut m = w.clone();
         block_mut(&mut m, i).next_key.algorithm ^= 1;
         out.push((format!("block{i}.next_key algorithm tag"), m));
+        // a number that is no algorithm at all (must be refused, not read as the default algorithm)
+        let mut m = w.clone();
+        block_mut(&mut m, i).next_key.algorithm = *pick(rng, &[2i32, 7, -1, i32::MAX]);
+        out.push((format!("block{i}.next_key algorithm number unknown"), m));
         for v in [None, Some(0u32), Some(1), Some(2)] {
             if block_mut(&mut w.clone(), i).version != v {
                 let mut m = w.clone();
@@ -285,6 +289,9 @@ pub fn mutations(w: &schema::Biscuit, other: &schema::Biscuit, earlier: Option<&
             let mut m = w.clone();
             block_mut(&mut m, i).external_signature.as_mut().unwrap().public_key = foreign.public().to_proto();
             out.push((format!("block{i}.external_signature.public_key replaced"), m));
+            let mut m = w.clone();
+            block_mut(&mut m, i).external_signature.as_mut().unwrap().public_key.algorithm = *pick(rng, &[2i32, 7, -1]);
+            out.push((format!("block{i}.external_signature.public_key algorithm number unknown"), m));
         } else if let Some(src) = w.blocks.iter().chain(other.blocks.iter()).find(|b| b.external_signature.is_some()) {
             let mut m = w.clone();
             block_mut(&mut m, i).external_signature = src.external_signature.clone();
